@@ -270,4 +270,34 @@ contract Service.runtimeInfo
   atreturn assert @all_entries_visited defined(visited1) ==> visited1 == keys(targets.Status)
   loop 1 invariant forall h in visited1 :: h in targets.Status
   loop 1 invariant min == sumover(visited1, h, targets.Status[h].Series) && total == sumover(visited1, h, targets.Status[h].TotalSeries)
+
+// ---------- the update request handler (C09): only a persisted update is acknowledged ----------
+// "After a restart the sidecar resumes exactly the last target assignment it acknowledged": the acknowledgement the coordinator
+// sees is this handler's result, so a success must come from an UpdateTargets call of this very request that returned nil -
+// the store then holds the marshalled assignment of the request (acknowledged_means_persisted). An answer taken from what the
+// manager holds in memory (which a refused update has already changed) would acknowledge something the store never got.
+// (assumed) binding the JSON body of an update request yields a well-formed assignment, as the coordinator sends it
+contract "github.com/gin-gonic/gin.Context.BindJSON"
+  ensures whentype(obj, "**tkestack.io/kvass/pkg/shard.UpdateTargetsRequest",
+       (result == nil ==> pointee(obj) != nil && wfTargets(pointee(obj).Targets) && uniqueHashes(pointee(obj).Targets)))
+  modifies pointee(obj), tkestack.io/kvass/pkg/shard.UpdateTargetsRequest.*
+
+ghost global gUpdateCalls int
+ghost global gUpdateGiven ref[tkestack.io/kvass/pkg/shard.UpdateTargetsRequest]
+on call TargetsManager.UpdateTargets(t, req) in Service.updateTargets
+   do gUpdateCalls = gUpdateCalls + 1
+   do gUpdateGiven = req
+
+contract Service.updateTargets
+  requires s != nil && s.targetManager != nil && statusEntriesNonNil(s.targetManager) && injectiveStatus(s.targetManager.targets.Status)
+  ensures result != nil
+  ensures[C09] @only_a_persisted_update_is_acknowledged result.Status == "success" ==>
+        (gUpdateCalls == old(gUpdateCalls) + 1 && gUpdateGiven != nil && s.targetManager.targets.Targets == gUpdateGiven.Targets
+         && pathjoin(2, s.targetManager.storeDir, storeFileName) in gFileComplete
+         && gFileContent[pathjoin(2, s.targetManager.storeDir, storeFileName)] == gLastMarshal)
+  ensures[C09] @a_request_that_cannot_be_read_changes_nothing gUpdateCalls == old(gUpdateCalls) ==> s.targetManager.targets == old(s.targetManager.targets)
+  modifies TargetsManager.targets at {s.targetManager}, target.ScrapeStatus.TargetState, target.ScrapeStatus.ScrapeTimes, target.ScrapeStatus.* at {},
+           tkestack.io/kvass/pkg/scrape.StatisticsSeriesResult.* at {}, mapof(tkestack.io/kvass/pkg/scrape.StatisticsSeriesResult.MetricsTotal) at {}, mapof(TargetsInfo.Status) at {},
+           net/url.URL.* at {}, gWJob, gWIdx, gFileContent, gFileComplete, gLastMarshal, gUpdateCalls, gUpdateGiven,
+           tkestack.io/kvass/pkg/api.Result.* at {}, tkestack.io/kvass/pkg/shard.UpdateTargetsRequest.*
 @*/
